@@ -842,6 +842,9 @@ func knownClass(c Case, st caseStats) string {
 	return ""
 }
 
+// excluded: the generator leaves a class out by construction when it is a
+// listed known finding; C17_EXCLUDE=class[,class] does the same by hand (used
+// to keep exploring past a finding, and for sensitivity runs).
 func excluded(known map[string]string, class string) bool {
 	if _, ok := known[class]; ok {
 		return true
@@ -1164,9 +1167,6 @@ func genCase(t *rapid.T, known map[string]string) Case {
 		used["many-files"] = true
 	}
 	kinds := []string{"modified", "modified", "modified", "modified", "modified", "new", "new", "deleted", "renamed"}
-	if excluded(known, "deleted-file") {
-		kinds = []string{"modified", "modified", "modified", "modified", "modified", "new", "new", "renamed"}
-	}
 	for fi := 0; fi < nfiles; fi++ {
 		kind := "modified"
 		if !manyFiles || fi < 2 {
@@ -1191,6 +1191,7 @@ func genCase(t *rapid.T, known map[string]string) Case {
 	if len(g.tg) == 0 {
 		// e.g. a single deleted file while anchor-before is excluded
 		t.Skip("no reportable rule")
+		return c
 	}
 	// initial report set, biased to exceed the budget
 	n0 := rapid.IntRange(1, 8).Draw(t, "n0")
@@ -1198,7 +1199,8 @@ func genCase(t *rapid.T, known map[string]string) Case {
 		switch c.MaxComments {
 		case 50:
 			if rapid.IntRange(0, 5).Draw(t, "over50") == 0 && !(c.Platform == "github" && excluded(known, "github-page2")) {
-				n0 = rapid.IntRange(51, 58).Draw(t, "n0big")
+				n0 = rapid.IntRange(62, 75).Draw(t, "n0big")
+				used["over-50"] = true
 			}
 		default:
 			n0 = c.MaxComments + rapid.IntRange(3, 8).Draw(t, "n0over")
@@ -1210,6 +1212,9 @@ func genCase(t *rapid.T, known map[string]string) Case {
 	}
 	// population: what an earlier run left behind ...
 	for i, s := range cur {
+		if used["over-50"] {
+			break // keep more than 50 problems without a comment
+		}
 		if rapid.IntRange(0, 2).Draw(t, fmt.Sprintf("warm%d", i)) == 0 {
 			c.Warm = append(c.Warm, s)
 		}
@@ -1288,7 +1293,7 @@ func keys(m map[string]bool) string {
 func TestPropCommentRuns(t *testing.T) {
 	rec := vstat.New(t, prop)
 	known := vstat.KnownClasses(prop)
-	for _, cls := range []string{"anchor-before", "deleted-file", "github-page2"} {
+	for _, cls := range []string{"anchor-before", "github-page2"} {
 		if excluded(known, cls) {
 			rec.Count("generator_excludes_"+cls, 1)
 		}
